@@ -51,6 +51,9 @@ structure Globals where
   renderModeC18 : PVal := PVal.str ['i', 'n', 'v', 'i', 's', 'i', 'b', 'l', 'e']
   /-- `hashlib.sha1(s.encode("utf-8")).hexdigest()` (not translated): the digest text, or `none` = not supplied (Py/PrimC18.lean) -/
   sha1HexC18 : Str → Option Str := fun _ => Option.none
+  /-- `d.as_html_tags(lib_prefix=lp, include_version=iv)` (HTMLDependency.as_html_tags is not translated): what the call
+      answers for the dependency object `d` is a parameter (Py/PrimC11.lean); by default nothing is known -/
+  asHtmlTagsC11 : PVal → PVal → PVal → PyM PVal := fun _ _ _ => Except.error PyErr.unsupported
 
 instance : Inhabited Globals :=
   ⟨{ HTML_ESCAPE_TABLE := .none, HTML_ATTRS_ESCAPE_TABLE := .none, VOID_TAG_NAMES := [],
